@@ -113,5 +113,14 @@ func gen(r *hx.Rng, n int, tier string) []string {
 			lines = append(lines, "C17H|"+strings.Join(es, ";")+"|"+strings.Join(ss, ";"))
 		}
 	}
+	// three dedicated witness cases of the recorded finding (PRF salts equal up to zero padding
+	// derive the same keyset): ordinary cases under the tag C17Z, reported as KNOWN-FINDING
+	z := 0
+	for _, l := range lines {
+		if z < 3 && strings.HasPrefix(l, "C17|") {
+			lines = append(lines, "C17Z|"+l[4:])
+			z++
+		}
+	}
 	return lines
 }
